@@ -1,6 +1,7 @@
 """C35 — map_blocks, blockwise and gufuncs see correct blocks and block locations."""
 from __future__ import annotations
 
+import copy
 import itertools
 
 import numpy as np
@@ -26,7 +27,10 @@ RULE = (
 )
 ASSUMPTIONS = [
     "calls made for meta inference (block_info not a dict / zero-size meta inputs) are not counted: dask documents them",
-    "map_blocks without chunks= takes the block structure of the first input with the most blocks per dim (documented)",
+    "map_blocks without chunks= takes, per dim, the block structure of the first input with the most blocks (documented); a size-1 "
+    "input is broadcast against the others, so the dim takes the others' chunks -- dask does this when the other input has >= 2 blocks "
+    "there or comes first; the stratum b_first (size-1 input FIRST, the other input in ONE block of length > 1: block counts tie) "
+    "demands the same and is the listed finding map-blocks-bcast-first-tie / blockwise-noalign-bcast-first-tie",
     "integer data, so einsum/vectorize references are exact",
     "blockwise: an index repeated inside one input ('ii') always carries the same chunks on both of its axes; different "
     "chunks there hit the unify_chunks shortcut defect that is listed (with a proposed fix) under C31 "
@@ -107,7 +111,8 @@ def mb_check(spec):
     xs = [A.build_np(i) for i in ins]
     ds = [A.build_da(i, x) for i, x in zip(ins, xs)]
     use = spec["use"]
-    sig = dict(op="map_blocks", drop=bool(lay["drop"]), new=bool(spec.get("new")), chunks_kw=bool(spec.get("chunks_kw")), ninputs=len(ins), use=use)
+    sig = dict(op="map_blocks", drop=bool(lay["drop"]), new=bool(spec.get("new")), chunks_kw=bool(spec.get("chunks_kw")), ninputs=len(ins), use=use,
+               bcast_first_tie=mb_bcast_first_tie(spec))
     lit = spec.get("literal_at")
     nlit = 0 if lit is None else 1
 
@@ -199,6 +204,8 @@ def mb_classes(spec):
     for k in ("drop", "new", "scale", "chunks_kw", "meta", "literal_at", "enforce_ndim", "new_size"):
         if spec.get(k) not in (None, [], False):
             yield k
+    if mb_bcast_first_tie(spec):
+        yield "bcast-first-tie"
     yield f"ninputs-{len(spec['inputs'])}"
     for i in spec["inputs"]:
         for k in set(i["dims"]):
@@ -208,7 +215,7 @@ def mb_classes(spec):
 def _fix(spec):
     """Keep the spec inside the documented domain: (a) a full-length single block ('s') next to a multi-block grid needs an
     input that follows the grid there; (b) where the grid has ONE block of length > 1, the first input present on the dim must
-    not be the size-1 one (otherwise dask documents that chunks= must be given: output takes the first input's structure)."""
+    not be the size-1 one -- unless spec['b_first'] asks for exactly that stratum (see mb_bcast_first_tie)."""
     g = spec["grid"]
     nd = len(g["shape"])
     if not any(len(i["dims"]) == nd for i in spec["inputs"]):
@@ -220,9 +227,23 @@ def _fix(spec):
             for i, j in pres:
                 if i["dims"][j] == "s":
                     i["dims"][j] = "f"
-        if len(g["chunks"][d]) == 1 and g["shape"][d] != 1 and pres[0][0]["dims"][pres[0][1]] == "b":
+        if len(g["chunks"][d]) == 1 and g["shape"][d] != 1 and pres[0][0]["dims"][pres[0][1]] == "b" and not spec.get("b_first"):
             pres[0][0]["dims"][pres[0][1]] = "f"
     return spec
+
+
+def mb_bcast_first_tie(spec):
+    """spec['b_first'] lifts rule (b) of _fix: on some dim where the grid has ONE block of length > 1, the first input present is
+    the size-1 (broadcast) one and a later input follows the grid.  The numbers of blocks tie there (1 and 1); the function
+    broadcasts like NumPy, so the output block is as long as the grid -- the same call with the grid split in two blocks on that
+    dim, or with the inputs in the other order, is inferred that way."""
+    g = spec["grid"]
+    nd = len(g["shape"])
+    for d in range(nd):
+        kinds = [i["dims"][d - (nd - len(i["dims"]))] for i in spec["inputs"] if d >= nd - len(i["dims"])]
+        if len(g["chunks"][d]) == 1 and g["shape"][d] != 1 and kinds[0] == "b" and "f" in kinds:
+            return True
+    return False
 
 
 def mb_enum(tier):
@@ -235,7 +256,11 @@ def mb_enum(tier):
             inputs = [{"dims": ["f"] * nd, "seed": 1}] + ([{"dims": second, "seed": 2}] if second else [])
             if m % 2:
                 inputs = inputs[::-1]
-            yield _fix({"grid": {"shape": shape, "chunks": ch}, "inputs": inputs, "use": use, "meta": bool(m % 2), **mode})
+            spec = {"grid": {"shape": shape, "chunks": ch}, "inputs": inputs, "use": use, "meta": bool(m % 2), **mode}
+            alt = _fix({**copy.deepcopy(spec), "b_first": True})
+            yield _fix(spec)
+            if mb_bcast_first_tie(alt):  # the size-1 input first on a one-block dim: only where that differs from the spec above
+                yield alt
 
 
 @st.composite
@@ -244,7 +269,17 @@ def mb_random(draw):
     shape = [draw(st.integers(1, 5)) for _ in range(nd)]
     spec = {"grid": {"shape": shape, "chunks": draw(A.chunks_for_shape(shape))}, "use": draw(st.sampled_from(["both", "block_info", "block_id"])), "meta": draw(st.booleans())}
     spec["inputs"] = [{"dims": [draw(st.sampled_from("fffbs")) for _ in range(draw(st.integers(1, nd)))], "seed": draw(st.integers(0, 999))} for _ in range(draw(st.integers(1, 3)))]
+    if draw(st.integers(0, 3)) == 0:
+        # lift rule (b) of _fix, and (by construction rather than by luck) put a size-1 input first on a one-block dim of length > 1
+        spec["b_first"] = True
     _fix(spec)
+    cand = [d for d in range(nd) if len(spec["grid"]["chunks"][d]) == 1 and shape[d] > 1]
+    if spec.get("b_first") and cand:
+        d = draw(st.sampled_from(cand))
+        pres = [(i, d - (nd - len(i["dims"]))) for i in spec["inputs"] if d >= nd - len(i["dims"])]
+        if len(pres) > 1:
+            pres[0][0]["dims"][pres[0][1]] = "b"
+            pres[1][0]["dims"][pres[1][1]] = "f"
     if draw(st.booleans()):
         spec["literal_at"] = draw(st.integers(0, len(spec["inputs"])))
     ndo = nd
@@ -296,6 +331,19 @@ def bw_pure(spec, arrays, lists=False):
     return r + spec.get("literal", 0)
 
 
+def bw_bcast_first_tie(spec):
+    """align_arrays=False and, for some output letter with ONE block of length > 1, the first input carrying the letter is the
+    size-1 (broadcast) one while a later input has the full length: block counts tie at 1."""
+    if spec.get("unaligned") or not spec.get("align_false"):
+        return False
+    for l in spec["out"]:
+        if l in spec["letters"] and spec["letters"][l]["n"] > 1 and len(spec["letters"][l]["chunks"]) == 1:
+            b = [i["bcast"][i["ind"].index(l)] for i in spec["inputs"] if l in i["ind"]]
+            if b and b[0] and not all(b):
+                return True
+    return False
+
+
 def bw_check(spec):
     import dask.array as da
 
@@ -303,7 +351,8 @@ def bw_check(spec):
     xs = [A.build_np(a) for a in aspecs]
     ds = [A.build_da(a, x) for a, x in zip(aspecs, xs)]
     out, new, conc = spec["out"], spec.get("new_axes", {}), spec["concatenate"]
-    sig = dict(op="blockwise", concatenate=bool(conc), new_axes=bool(new), adjust=bool(spec.get("adjust")), align=bool(spec.get("unaligned")))
+    sig = dict(op="blockwise", concatenate=bool(conc), new_axes=bool(new), adjust=bool(spec.get("adjust")), align=bool(spec.get("unaligned")),
+               bcast_first_tie=bw_bcast_first_tie(spec))
 
     def f(*args):
         arrs = [a if isinstance(a, np.ndarray) else list(a) for a in args[: len(xs)]]
@@ -382,6 +431,8 @@ def bw_classes(spec):
         yield "repeated-in-one-input"
     if any(any(i["bcast"]) for i in spec["inputs"]):
         yield "broadcast"
+    if bw_bcast_first_tie(spec):
+        yield "bcast-first-tie"
 
 
 @st.composite
@@ -399,7 +450,7 @@ def bw_random(draw):
     out = list(out) + sorted({l for i in inputs for l in i["ind"] if i["ind"].count(l) > 1} - set(out))
     spec = {"letters": letters, "inputs": inputs, "out": "".join(out), "concatenate": True}
     contracted = [l for l in used if l not in out]
-    mode = draw(st.sampled_from(["plain", "lists", "lists", "unaligned", "unaligned", "bcast", "bcast", "bcast"]))
+    mode = draw(st.sampled_from(["plain", "lists", "lists", "unaligned", "unaligned", "bcast", "bcast", "bcast", "bcast_any", "bcast_any"]))
     if mode == "lists" and len(contracted) == 1 and not repeated:
         spec["concatenate"] = None
     elif mode == "unaligned" and not repeated:
@@ -410,6 +461,12 @@ def bw_random(draw):
     elif mode == "bcast" and len(inputs) > 1 and not repeated:
         for i in inputs[1:]:
             i["bcast"] = [l in out and draw(st.booleans()) for l in i["ind"]]
+    elif mode == "bcast_any" and len(inputs) > 1 and not repeated:
+        # any input (the first one too) may be the size-1 one on an output letter, with or without align_arrays=False (the block
+        # counts already agree up to broadcasting, so alignment has nothing to do)
+        for i in inputs:
+            i["bcast"] = [l in out and draw(st.booleans()) for l in i["ind"]]
+        spec["align_false"] = draw(st.booleans())
     else:
         spec["align_false"] = draw(st.booleans())
     if draw(st.integers(0, 3)) == 0:
